@@ -174,7 +174,7 @@ func runRound(in *interp.Interp, r *Round) (sig, detail string) {
 
 func TestConcurrentEvaluations(t *testing.T) {
 	in := interp.Shared()
-	vt.Check(t, vt.N(160, 5000), func(rt *rapid.T) {
+	vt.Check(t, vt.N(160, 3000), func(rt *rapid.T) {
 		n := rapid.IntRange(2, 16).Draw(rt, "goroutines")
 		shared := []string{}
 		for i := rapid.IntRange(0, 3).Draw(rt, "nshared"); i > 0; i-- {
@@ -184,7 +184,7 @@ func TestConcurrentEvaluations(t *testing.T) {
 		if arity.Load() < 9 {
 			arity.Store(8)
 		}
-		if arity.Load() < 600 {
+		if arity.Load() < 200 {
 			arity.Add(int64(rapid.IntRange(1, 9).Draw(rt, "arity step")))
 		}
 		writers, readers, interns := 0, 0, 0
@@ -242,7 +242,7 @@ func TestSameNewSymbolEverywhere(t *testing.T) {
 // shared tables do only after they have grown (rehash, snapshot, eviction) happens while other evaluations run.
 func TestSymbolVolume(t *testing.T) {
 	in := interp.Shared()
-	vt.Check(t, vt.N(48, 1600), func(rt *rapid.T) {
+	vt.Check(t, vt.N(48, 400), func(rt *rapid.T) {
 		r := Round{}
 		bulk := rapid.IntRange(2, 4).Draw(rt, "bulk programs")
 		per := rapid.IntRange(600, 1800).Draw(rt, "symbols per bulk program")
